@@ -137,8 +137,12 @@ def call_plot(case, ds, arrays=None):
     grid = {k: case[k] for k in ("row", "col") if case.get(k) is not None}
     if case.get("auto"):
         if kind == "lineplot" or kind == "scatter":
-            xv = ds[case["x"]].values
-            yz = ds[case["y"]].transpose(case["z"], case["x"]).values if case.get("z") else ds[case["y"]].values
+            if case.get("auto_x2d"):
+                xv = ds[case["x"]].transpose("z", "x").values
+                yz = ds[case["y"]].transpose("z", "x").values
+            else:
+                xv = ds[case["x"]].values
+                yz = ds[case["y"]].transpose(case["z"], case["x"]).values if case.get("z") else ds[case["y"]].values
             if case.get("auto_transposed"):
                 yz = np.transpose(yz)
             fn = xyzpy.auto_lineplot if kind == "lineplot" else xyzpy.auto_scatter
